@@ -47,6 +47,27 @@ type RTCase struct {
 	Entries []Entry  `json:"entries"`
 	Targets []Target `json:"targets,omitempty"` // drawn targets, in addition to the derived ones
 	Reuse   bool     `json:"reuse,omitempty"`   // one iterator for all seeks instead of a fresh one per seek
+	// Clauses, if non-empty, restricts the case to the named oracle clauses
+	// (forward | seeklast | seek | get). Generated cases leave it empty; it
+	// lets a regression replay show the one signature it was saved for.
+	Clauses []string `json:"clauses,omitempty"`
+}
+
+func (c *RTCase) wants(clause, flag string) bool {
+	if len(c.Clauses) > 0 {
+		found := false
+		for _, x := range c.Clauses {
+			found = found || x == clause
+		}
+		if !found {
+			return false
+		}
+	}
+	if !ev.Flag(flag) {
+		ev.R().Exclude(flag)
+		return false
+	}
+	return true
 }
 
 // COCase is a corruption case.
@@ -288,6 +309,15 @@ func resolveFaults(c *COCase, l *layout, fileSize int) []resolvedFault {
 			off, size = 0, fileSize
 		}
 		p := off + int(f.Off)%size
+		if in, next := l.inBloomHeader(p); in && !ev.Flag("sst_corrupt_bloom_header") {
+			// open finding: the per-block filter header is trusted unchecked;
+			// move the fault into the filter's bit array
+			ev.R().Exclude("sst_corrupt_bloom_header")
+			if next >= l.BloomOff+l.BloomSize {
+				next = 0
+			}
+			p = next
+		}
 		x := f
 		if x.X == 0 {
 			x.X = 1
@@ -296,6 +326,10 @@ func resolveFaults(c *COCase, l *layout, fileSize int) []resolvedFault {
 	}
 	if c.AllX != 0 {
 		for p := 0; p < fileSize; p++ {
+			if in, _ := l.inBloomHeader(p); in && !ev.Flag("sst_corrupt_bloom_header") {
+				ev.R().Exclude("sst_corrupt_bloom_header")
+				continue
+			}
 			out = append(out, resolvedFault{f: Fault{Region: "any", Off: uint32(p), X: c.AllX}, pos: p, reg: l.region(p)})
 		}
 	}
